@@ -495,6 +495,58 @@ def build(arg):
     return T
 """
 
+# process-wide type caches (_SubTypes of BitVector/Unsigned/Signed/Array, template cache): vector types of widths
+# no other letter uses (5, 7, 9, 11, 13) are created for the first time INSIDE the compilation, ascending spelling
+# in one letter, descending spelling (plain integer width and N-1:0) in the other
+MODULES["types_asc"] = HEADER + "from cohdl import Array\n" + """
+class T(Entity):
+    inp = Port.input(BitVector[32])
+    o = Port.output(Bit)
+    def architecture(self):
+        a = Signal[BitVector[0:4]](name="a")
+        b = Signal[Unsigned[0:6]](name="b")
+        asc_types = [Signed[0:10], Unsigned[0:10], BitVector[0:6], Signed[0:4], Signed[0:6], Unsigned[0:4], BitVector[0:8], Unsigned[0:8]]
+        wsum = sum(t.width for t in asc_types)
+        arr = Signal[Array[BitVector[0:12], 3]](name="arr")
+        @std.concurrent
+        def logic():
+            a.next = self.inp[4:0]
+            b.next = self.inp[6:0].unsigned
+            arr[0] <<= self.inp[12:0]
+            self.o <<= a[0] ^ b[1] ^ arr[0][3] ^ self.inp[wsum % 32]
+
+def build(arg):
+    return T
+"""
+
+MODULES["types_desc"] = HEADER + "from cohdl import Array\n" + """
+class W(int): pass
+class Tm(std.Record[W]):
+    x: BitVector[W]
+    y: Unsigned[W]
+class T(Entity):
+    inp = Port.input(BitVector[32])
+    o = Port.output(Bit)
+    def architecture(self):
+        a = Signal[BitVector[5]](name="a")
+        a2 = Signal[BitVector[4:0]](name="a2")
+        b = Signal[Unsigned[7]](name="b")
+        c = Signal[Signed[11]](name="c")
+        arr = Signal[Array[BitVector[13], 3]](name="arr")
+        @std.concurrent
+        def logic():
+            a.next = self.inp[4:0]
+            a2.next = a
+            b.next = self.inp[6:0].unsigned + 1
+            c.next = self.inp[10:0].signed
+            arr[1] <<= self.inp[12:0]
+            t = std.from_bits[Tm[9]](self.inp[17:0])
+            self.o <<= a2[0] ^ b[1] ^ c[2] ^ arr[1][3] ^ t.x[8] ^ t.y[0]
+
+def build(arg):
+    return T
+"""
+
 # names that collide (case-insensitively, with reserved words, with each other across scopes)
 MODULES["names"] = HEADER + """
 class T(Entity):
@@ -840,6 +892,8 @@ LETTERS: dict[str, tuple] = {
     "dyn_b": ("dyn", "b", "accept", "same class object, variant b adds other dynamic ports"),
     "attrs": ("attrs", None, "accept", "module-level attributes dicts passed together with comment= to std.concurrent/std.sequential"),
     "libpath": ("libpath", None, "accept", "sub-entities with different attributes={'path': lib}, one extern: library clauses"),
+    "types_asc": ("types_asc", None, "accept", "creates ascending vector types (BitVector[0:4], Unsigned[0:6], Signed[0:10], Array of [0:12]) inside the compilation"),
+    "types_desc": ("types_desc", None, "accept", "creates the descending types of the same widths (BitVector[5], [4:0], Unsigned[7], Signed[11], Array, Record template arg 9) inside the compilation"),
     "names": ("names", None, "accept", "colliding / reserved / case-different names"),
     "exitcoro": ("exitcoro", None, "accept", "sub-entities with coroutines + cohdl.always, cohdl.on_block_exit handlers"),
     "rej_dyn": ("dyn", "fail", "reject", "same class as dyn_a/dyn_b: adds a dynamic port, then architecture() raises"),
